@@ -87,11 +87,11 @@ pub fn gen_dp_query(r: &mut Rng, w: &DpWorld) -> DpQuery {
     let mut feats: Vec<&'static str> = vec![];
     let users = w.cat.table("users").unwrap();
     let city_public = users.cols[users.col("city").unwrap()].finite_values();
-    let shape = r.below(14);
+    let shape = r.below(16);
     let (from, num_cols, keys): (String, Vec<(&str, bool)>, Vec<(&str, bool)>) = match shape {
         0 | 1 | 2 => (
             "orders".into(),
-            vec![("amount", true), ("qty", false)],
+            vec![("amount", true), ("qty", false), ("adj", false)],
             vec![("status", true), ("qty", true), ("user_id", false)],
         ),
         3 | 4 => (
@@ -103,7 +103,7 @@ pub fn gen_dp_query(r: &mut Rng, w: &DpWorld) -> DpQuery {
             feats.push("join_fk");
             (
                 "orders AS o JOIN users AS u ON o.user_id = u.id".into(),
-                vec![("o.amount", true), ("o.qty", false), ("u.age", true), ("u.income", true)],
+                vec![("o.amount", true), ("o.qty", false), ("o.adj", false), ("u.age", true), ("u.income", true)],
                 vec![("u.city", city_public), ("o.status", true), ("u.tier", true)],
             )
         }
@@ -144,6 +144,23 @@ pub fn gen_dp_query(r: &mut Rng, w: &DpWorld) -> DpQuery {
                 "users AS u JOIN orders AS o ON u.tier = o.qty".into(),
                 vec![("o.amount", true), ("u.age", true), ("u.income", true)],
                 vec![("u.city", city_public), ("o.status", true)],
+            )
+        }
+        14 => {
+            // a DP aggregation over a join with a DP sub-query: two levels of mechanisms to account for
+            feats.push("dp_over_dp");
+            (
+                "orders AS o JOIN (SELECT status AS st, AVG(amount) AS m FROM orders GROUP BY status) AS s ON o.status = s.st".into(),
+                vec![("o.amount", true), ("o.qty", false), ("(o.amount * s.m)", true)],
+                vec![("o.status", true)],
+            )
+        }
+        15 => {
+            feats.push("dp_over_dp");
+            (
+                "users AS u JOIN (SELECT COUNT(*) AS n FROM orders) AS s ON u.age > s.n".into(),
+                vec![("u.age", true), ("u.income", true)],
+                vec![("u.tier", true)],
             )
         }
         10 => {
